@@ -6,7 +6,8 @@
 # usage: tools_benign.sh /tmp/seed-C17-zb C17-zb [budget_s] [props...]
 wt=$1; id=$2; budget=${3:-15}; shift; shift; shift
 props=${@:-C01 C02 C03 C04 C05 C11 C16 C17}
-dst=/verif/benign/$id
+ROOT=$(dirname $(realpath $0))
+dst=$ROOT/benign/$id
 if [ -d "$wt" ]; then
   cd $wt || exit 2
   test -f seeded/meta.json || { echo "deliverables missing"; ls seeded; exit 2; }
@@ -22,7 +23,7 @@ if [ -d "$wt" ]; then
   test -f seeded/demo.py && sed "s#\"$wt\"#__import__('os').environ.get('ROBOTOOLS_REPO', '/repo')#; s#'$wt'#__import__('os').environ.get('ROBOTOOLS_REPO', '/repo')#" seeded/demo.py > $dst/demo.py
   echo "$suite" > $dst/suite.txt
 fi
-cd /verif
+cd $ROOT
 target=/dev/shm/rtcopy-benign-$id
 rm -rf $target; mkdir -p $target
 rsync -a --exclude .git --exclude __pycache__ --exclude notebooks --exclude docs /repo/ $target/
